@@ -44,7 +44,8 @@ type c11Form struct {
 // projection): zero|one|ones {t}; byte|word {t,n:[v]}; dword {t,n:[hi16,lo16]}; qword {t,n:[4 limbs]};
 // string {t,s}; buffer {t,a:[len],n:[bytes]}; package {t,n:[count],a:[elements]}; arg|local {t,n:[i]};
 // tokens only: ref {t,f} call {t,f,a}; projection only: ref {t,p} call {t,p,a} name {t,f} op {t,s,a}
-// unit {t,n:[off,bits,accType,accAttrib,lock,update],f:region name as written}.
+// unit {t,s:kind of the field container (Field|IndexField|BankField),n:[off,bits,accType,accAttrib,lock,update],
+// a:the container's arguments before its flags byte (region / index,data / region,bank,bank value; names as written)}.
 type c11Term struct {
 	T string
 	N []int
@@ -91,8 +92,9 @@ func (t c11Term) MarshalJSON() ([]byte, error) {
 		}
 		m["a"] = terms()
 	case "unit":
+		m["s"] = t.S
 		m["n"] = ints()
-		m["f"] = t.F
+		m["a"] = terms()
 	default: // op and anything unexpected
 		m["s"] = t.S
 		m["a"] = terms()
@@ -136,6 +138,8 @@ type c11Tok struct {
 	K     string    `json:"k"` // scope open method close decl field stmt if else endtable
 	Kind  string    `json:"kind,omitempty"`
 	F     *c11Form  `json:"f,omitempty"`
+	G     *c11Form  `json:"g,omitempty"` // second name of IndexField (data) / BankField (bank)
+	V     []c11Term `json:"v,omitempty"` // bank value of a BankField (one term)
 	W     int       `json:"w,omitempty"`
 	Flags int       `json:"flags"`
 	Args  []c11Term `json:"args,omitempty"`
@@ -176,7 +180,17 @@ func (t c11Tok) MarshalJSON() ([]byte, error) {
 				els = append(els, map[string]interface{}{"e": "access", "at": e.At, "aa": e.Aa})
 			}
 		}
-		m["f"], m["w"], m["flags"], m["els"] = t.F, t.W, t.Flags, els
+		kind := t.Kind
+		if kind == "" {
+			kind = "Field"
+		}
+		m["kind"], m["f"], m["w"], m["flags"], m["els"] = kind, t.F, t.W, t.Flags, els
+		if kind != "Field" {
+			m["g"] = t.G
+		}
+		if kind == "BankField" {
+			m["v"] = t.V
+		}
 	case "stmt":
 		m["op"], m["x"] = t.Op, x
 	case "if", "while":
@@ -397,7 +411,17 @@ func c11Encode(toks []c11Tok) (tables [][]byte, err error) {
 			}
 			top().body = append(top().body, b...)
 		case "field":
-			b := append(c11EncName(t.F), byte(t.Flags))
+			b := c11EncName(t.F)
+			op := byte(0x81)
+			switch t.Kind {
+			case "IndexField":
+				op = 0x86
+				b = append(b, c11EncName(t.G)...)
+			case "BankField":
+				op = 0x87
+				b = append(append(b, c11EncName(t.G)...), c11EncTerm(t.V[0])...)
+			}
+			b = append(b, byte(t.Flags))
 			for _, e := range t.Els {
 				switch e.E {
 				case "unit":
@@ -408,7 +432,7 @@ func c11Encode(toks []c11Tok) (tables [][]byte, err error) {
 					b = append(b, 0x01, byte(e.At), byte(e.Aa))
 				}
 			}
-			top().body = append(top().body, append([]byte{0x5b, 0x81}, c11EncPkg(b, t.W)...)...)
+			top().body = append(top().body, append([]byte{0x5b, op}, c11EncPkg(b, t.W)...)...)
 		case "stmt":
 			op, ok := c11StmtOp[t.Op]
 			if !ok {
@@ -483,7 +507,12 @@ type c11Obs struct {
 	Calls []c11Call  `json:"calls"`
 }
 
+// objects that occupy a name in a scope.  The field containers IndexField / BankField carry the
+// parser's "named" flag (their first argument is a name string) but declare no object themselves.
 func c11Named(o *Object) bool {
+	if o.opcode == pOpIndexField || o.opcode == pOpBankField {
+		return false
+	}
 	return pOpcodeTable[o.infoIndex].flags&pOpFlagNamed != 0 || o.opcode == pOpIntNamedField
 }
 
@@ -638,14 +667,17 @@ func c11Project(tree *ObjectTree) (ns []c11Entry, calls []c11Call) {
 				ns = append(ns, c11Entry{P: p, Kind: "Scope(unmerged)", Args: []c11Term{}})
 			case o.opcode == pOpIntNamedField:
 				fe, _ := o.value.(*fieldElement)
-				u := c11Term{T: "unit", N: []int{}, F: &c11Form{Segs: []string{}}}
+				u := c11Term{T: "unit", S: "?", N: []int{}, A: []c11Term{}}
 				if fe != nil {
 					u.N = []int{int(fe.offset), int(fe.width), int(fe.accessType), int(fe.accessAttrib), int(fe.lockType), int(fe.updateType)}
 					if fo := tree.ObjectAt(fe.fieldIndex); fo != nil {
-						if a0 := tree.ArgAt(fo, 0); a0 != nil {
-							if b, ok := a0.value.([]byte); ok {
-								u.F = c11DecodeName(b)
+						u.S = pOpcodeName(fo.opcode)
+						args := c11Args(tree, fo)
+						for i, a := range args {
+							if i == len(args)-1 || a.opcode == pOpIntConnection {
+								continue // the flags byte; connections are not generated
 							}
+							u.A = append(u.A, c11Term1(tree, a, 0))
 						}
 					}
 				}
